@@ -13,7 +13,7 @@ PROPS = {
     "C16": _crdt("C16", 3000, 4000),
     "C06": {"jobs": [{"pkg": "auth", "run": "^TestC06$", "checks_quick": 3000, "checks_thorough": 4000, "shards_thorough": 16, "wal": True}]},
     "C07": {"jobs": [{"pkg": "auth", "run": "^TestC07$", "checks_quick": 20000, "checks_thorough": 40000, "shards_thorough": 16}]},
-    "C08": {"jobs": [{"pkg": "codec", "run": "^TestC08", "checks_quick": 20000, "checks_thorough": 40000, "shards_thorough": 8, "xproc": True}]},
+    "C08": {"jobs": [{"pkg": "codec", "run": "^TestC08", "checks_quick": 8000, "checks_thorough": 30000, "shards_thorough": 8, "xproc": True}]},
     "C09": {"jobs": [{"pkg": "load", "run": "^TestC09$", "checks_quick": 1500, "checks_thorough": 2500, "shards_thorough": 16}]},
     "C10": {"jobs": [{"pkg": "load", "run": "^TestC10$", "checks_quick": 1500, "checks_thorough": 2500, "shards_thorough": 16}]},
     "C11": {"jobs": [{"pkg": "load", "run": "^TestC11$", "checks_quick": 1500, "checks_thorough": 2500, "shards_thorough": 16}], "timeout_quick": 1200},
